@@ -432,6 +432,11 @@ def updr_line(rng, c, path=None, focus=None):
     else:
         ptxt = 'path=%s' % path
     if rng.random() < 0.2:
+        # (a None-clear is a `replace`: the library checks the raw rows for uniqueness up front, so a row given
+        #  twice is refused even when it is EMPTY — the model drops empty rows first.  Documented asymmetry on
+        #  input outside the property's quantifier: rows are made unique here)
+        urows = list(dict.fromkeys(rows))
+        rtxt = ','.join("%d:%d" % ab for ab in urows) or '_'
         return "updr %s op=replace none=1 ranges=%s %s" % (c.name, rtxt, ptxt)
     return "updr %s op=%s ranges=%s val=%s %s" % (c.name, op, rtxt, c.val(rng), ptxt)
 
